@@ -729,6 +729,31 @@ Example line_convert_sound_script_hyps : forall dbg,
           [(0, 12288); (1, 1); (1, 6); (1, 27); (2, 27); (1, 0); (2, 3)]).
 Proof. exact ConvertLineSim.plain_witness. Qed.
 
+(* line_convert_sound, SCRIPT LEVEL, EVERY operand (clause (1) of the _partial theorem above closed): for every
+   hdr_ok header, both build modes, EVERY program outside the F10 class — no condition on the set_address operands —
+   if rows() and the read_row iteration both run to the end, the events are the reader's rows PLUS ghost sequences
+   (ConvertLineSim.ev_match2 = ev_match extended by two clauses):
+     * a sequence headed by the event SetAddress(2^(8*address_size) - 2) [the -2 value: gimli's reader treats it as a
+       tombstone, the converter does not] with its Row events and its EndSequence corresponds to NO reader row — and
+       the reader drops it again when the converted program is read back, because the operand is carried verbatim;
+     * a lone EndSequence(offset) with no row before it may correspond to no reader row: the source had an EMPTY -2
+       sequence whose pending address the converter swallowed (read back it is an empty sequence [0, offset): a
+       silent but row-less difference, invisible to the dump oracle which drops empty sequences; see notes);
+     * sequences whose operand is the DWARF tombstone -1 produce no event at all, like no reader row.
+   Proof: the simulation has three modes (live / tombstoned on both sides / ghost), Proofs/ConvertLineSim.v sim_both,
+   and an outer induction over the converter's calls with the reader's pending next_row loop (sim_rows2).
+   Still missing for the full line_convert_sound: the composition with C13 (see notes: the end_sequence row of the
+   converted program carries the registers of the previous row, not those of the source's end_sequence row, so the
+   end-to-end equality can only be claimed modulo the non-address registers of end_sequence rows). *)
+Theorem line_convert_sound_script : forall dbg be sx s ls c0 rs evs cf,
+  LineRdMono.hdr_ok (ConvertLine.sh_h s) ->
+  ConvertLine.known_midseq dbg be (ConvertLine.sh_h s) = false ->
+  ConvertLine.cl_new dbg sx s ls = Ok c0 ->
+  LineRd.rows_model dbg be (ConvertLine.sh_h s) = (rs, LineRd.SEnd) ->
+  ConvertLine.events dbg be sx (ConvertLine.sh_h s) c0 = (evs, LineRd.SEnd, cf) ->
+  ConvertLineSim.ev_match2 (ConvertLine.cl_files cf) (ConvertLineSim.mtomb (ConvertLine.sh_h s)) 0 false false evs rs.
+Proof. exact ConvertLineSim.convert_events_sound_all. Qed.
+
 (* tombstone operands on the model: -1 is dropped by both sides (inside the theorem's class); -2 is dropped by the
    reader and kept by the converter (outside); an empty -2 sequence leaves a lone EndSequence *)
 Theorem line_convert_tombstone_witnesses : forall dbg,
@@ -747,9 +772,9 @@ Proof. exact ConvertLineSim.tombstone_witnesses. Qed.
 
 (* the class predicate is exactly "outside F10 and below the tombstones" *)
 Theorem line_convert_plain_class : forall mt is moved,
-  ConvertLineSim.plain_scan mt is moved =
+  ConvertLineSim.plain_scan true mt is moved =
   negb (ConvertLine.midseq_scan is moved) && ConvertLineSim.addrs_below mt is.
-Proof. exact ConvertLineSim.plain_scan_iff. Qed.
+Proof. exact (ConvertLineSim.plain_scan_iff true). Qed.
 
 (* the two known-finding classes (Model/ConvertLine.v known_midseq = the class of harness/src/c12.rs
    midseq_set_address; known_vliw = maximum_operations_per_instruction > 1), with model witnesses *)
@@ -789,3 +814,4 @@ Check line_convert_no_panic. Check line_convert_events_terminate. Check line_con
 Check line_convert_define_file_safe.
 Check line_convert_sound_script_partial. Check line_convert_plain_class.
 Check line_convert_tombstone_witnesses.
+Check line_convert_sound_script.
